@@ -1,6 +1,7 @@
 package main
 
 import (
+	"os"
 	"strings"
 	"fmt"
 	"go/constant"
@@ -10,6 +11,8 @@ import (
 
 	"golang.org/x/tools/go/ssa"
 )
+
+var traceOn = os.Getenv("GOSYM_TRACE") != ""
 
 // ---------- program-wide (shared, read-mostly) ----------
 
@@ -176,6 +179,10 @@ type Exec struct {
 	bgCtx      *ctxObj
 	wgs        map[*Value]*int
 	onces      map[*Value]*int
+	randIDs    []*Term
+	allowIDCollide bool
+	raised     bool
+	panicWhere string
 }
 
 func (x *Exec) end(status, msg string) {
@@ -337,6 +344,7 @@ func (g *G) runnable() bool { return !g.done && g.wait == wNone }
 
 // raise a Go panic in goroutine g
 func (x *Exec) goPanic(g *G, val Value, msg string, runtime bool) {
+	x.raised = true
 	g.panic = &PanicV{Val: val, Msg: msg, Runtime: runtime, Where: x.where()}
 	if len(g.frames) > 0 {
 		g.top().unwind = true
@@ -376,9 +384,12 @@ func (x *Exec) runG(g *G) {
 		}
 		x.steps++
 		if x.steps > x.H.MaxSteps {
-			x.end("limit", fmt.Sprintf("step limit %d", x.H.MaxSteps))
+			x.end("limit", fmt.Sprintf("step limit %d @ %s", x.H.MaxSteps, x.where()))
 		}
 		instr := fr.block.Instrs[fr.pc]
+		if traceOn {
+			fmt.Fprintf(os.Stderr, "g%d %s b%d.%d: %s\n", g.id, fr.fn.Name(), fr.block.Index, fr.pc, instr)
+		}
 		yield := x.exec(g, fr, instr)
 		if yield {
 			return
@@ -503,6 +514,7 @@ func (x *Exec) callFn(g *G, fn *ssa.Function, args []Value, env []Value, retTo s
 
 // exec executes one instruction; returns true if the scheduler must run.
 func (x *Exec) exec(g *G, fr *Frame, instr ssa.Instruction) bool {
+	x.raised = false
 	switch in := instr.(type) {
 	case *ssa.DebugRef:
 	case *ssa.Alloc:
@@ -514,12 +526,12 @@ func (x *Exec) exec(g *G, fr *Frame, instr ssa.Instruction) bool {
 			return x.execRecv(g, fr, in)
 		}
 		x.set(fr, in, x.unop(in, x.get(fr, in.X)))
-		if g.panic != nil {
+		if x.raised {
 			return false
 		}
 	case *ssa.BinOp:
 		r := x.binop(in.Op, in.X.Type(), in.Y.Type(), x.get(fr, in.X), x.get(fr, in.Y))
-		if g.panic != nil {
+		if x.raised {
 			return false
 		}
 		x.set(fr, in, r)
@@ -549,7 +561,7 @@ func (x *Exec) exec(g *G, fr *Frame, instr ssa.Instruction) bool {
 		}
 	case *ssa.Lookup:
 		x.lookup(fr, in)
-		if g.panic != nil {
+		if x.raised {
 			return false
 		}
 	case *ssa.MapUpdate:
@@ -611,7 +623,7 @@ func (x *Exec) exec(g *G, fr *Frame, instr ssa.Instruction) bool {
 		x.set(fr, in, cell)
 	case *ssa.TypeAssert:
 		x.typeAssert(fr, in)
-		if g.panic != nil {
+		if x.raised {
 			return false
 		}
 	case *ssa.Extract:
@@ -633,7 +645,7 @@ func (x *Exec) exec(g *G, fr *Frame, instr ssa.Instruction) bool {
 		return x.execSend(g, fr, in)
 	case *ssa.Go:
 		fv, args := x.prepareCall(fr, &in.Call)
-		if g.panic != nil {
+		if x.raised {
 			return false
 		}
 		ng := x.newG(fmt.Sprintf("go@%s", x.where()))
@@ -648,7 +660,7 @@ func (x *Exec) exec(g *G, fr *Frame, instr ssa.Instruction) bool {
 		return x.maybePreempt(g)
 	case *ssa.Defer:
 		fv, args := x.prepareCall(fr, &in.Call)
-		if g.panic != nil {
+		if x.raised {
 			return false
 		}
 		fr.defers = append(fr.defers, &deferred{fn: fv, args: args, call: &in.Call})
@@ -665,12 +677,12 @@ func (x *Exec) exec(g *G, fr *Frame, instr ssa.Instruction) bool {
 		}
 	case *ssa.Call:
 		fv, args := x.prepareCall(fr, &in.Call)
-		if g.panic != nil {
+		if x.raised {
 			return false
 		}
 		var retTo ssa.Value = in
 		nf := x.callValue(g, fv, args, retTo, &in.Call)
-		if nf != nil || g.panic != nil || g.wait != wNone || g.done {
+		if nf != nil || x.raised || g.wait != wNone || g.done {
 			// frame pushed (return advances pc), or panicking, or blocked (retry)
 			if g.wait != wNone {
 				return true
